@@ -305,49 +305,74 @@ func (i *Inst) describeMinted(tok, at string) (M, map[string]interface{}) {
 	return tokRec("compact", alg, key, iss, hasExp, exp, hasNbf, nbf, st, "none"), claims
 }
 
-// RunProto executes single-tunnel protocol scripts against inst and appends
-// their traces.
-func (i *Inst) RunProto(s Script, tw *TraceWriter, rng *rand.Rand) error {
-	cfg := s.Cfg
+// ProtoSession executes the steps of one tunnel one at a time, so that the
+// steps of several tunnels can be interleaved by the caller.
+type ProtoSession struct {
+	I     *Inst
+	S     Script
+	PC    *ProtoCtx
+	T     *TunConn
+	Lines []M
+}
+
+func (i *Inst) NewSession(s Script, rng *rand.Rand) *ProtoSession {
+	return &ProtoSession{I: i, S: s, PC: i.NewProtoCtx(s, rng)}
+}
+
+// Open emits the reset line and establishes the tunnel.
+func (ps *ProtoSession) Open() error {
+	s, cfg := ps.S, ps.S.Cfg
 	rd := cfg.Redir
 	if rd == nil {
 		rd = DefaultRedir()
 	}
-	tw.Line(M{"ev": "reset", "script": s.ID, "origin": s.Origin, "transport": s.Transport,
+	ps.Lines = append(ps.Lines, M{"ev": "reset", "script": s.ID, "origin": s.Origin, "transport": s.Transport,
 		"cfg": M{"tokenAuth": cfg.TokenAuth, "smartCard": cfg.SmartCard, "redir": rd, "idle": cfg.Idle}})
-	pc := i.NewProtoCtx(s, rng)
-	userSyms := pc.UserSyms
-	t, rep, err := i.Open(pc.OpenOpts())
+	t, rep, err := ps.I.Open(ps.PC.OpenOpts())
 	if err != nil {
 		return fmt.Errorf("open: %w", err)
 	}
 	if t == nil {
 		return fmt.Errorf("open refused: %d", rep.Status)
 	}
-	defer t.Close()
-	for _, st := range s.Steps {
-		k := str(st, "k", "other")
-		pkt, lp, err := pc.Build(st)
-		if err != nil {
-			return err
-		}
-		r, err := t.Step(pkt)
-		if err != nil {
-			return fmt.Errorf("script %s step %s: %w", s.ID, k, err)
-		}
-		resps := []interface{}{}
-		for _, d := range r.Resps {
-			resps = append(resps, RespRec(d))
-		}
-		dials := []interface{}{}
-		for _, h := range r.Dials {
-			hint := append([][]string{syms(st, "name"), {str(st, "port", "")}, userSyms}, cfg.Hosts...)
-			dials = append(dials, i.Abs(h, hint))
-		}
-		lo := M{"resps": resps, "dials": dials, "dialsraw": append([]string{}, r.Dials...), "conn": r.Conn, "nfwd": r.NFwd, "fwdbytes": r.FwdBytes, "end": r.End, "skipped": r.Skipped}
-		tw.Line(M{"ev": "pkt", "p": lp, "o": lo})
+	ps.T = t
+	return nil
+}
+
+// Step executes step k of the script and records the gateway's reaction.
+func (ps *ProtoSession) Step(k int) (Reaction, error) {
+	i, s, cfg := ps.I, ps.S, ps.S.Cfg
+	st := s.Steps[k]
+	kind := str(st, "k", "other")
+	pkt, lp, err := ps.PC.Build(st)
+	if err != nil {
+		return Reaction{}, err
 	}
-	// nothing may have happened on this tunnel's loop after it ended
+	r, err := ps.T.Step(pkt)
+	if err != nil {
+		return r, fmt.Errorf("script %s step %s: %w", s.ID, kind, err)
+	}
+	resps := []interface{}{}
+	for _, d := range r.Resps {
+		resps = append(resps, RespRec(d))
+	}
+	dials := []interface{}{}
+	for _, h := range r.Dials {
+		hint := append([][]string{syms(st, "name"), {str(st, "port", "")}, ps.PC.UserSyms}, cfg.Hosts...)
+		dials = append(dials, i.Abs(h, hint))
+	}
+	lo := M{"resps": resps, "dials": dials, "dialsraw": append([]string{}, r.Dials...), "conn": r.Conn, "nfwd": r.NFwd, "fwdbytes": r.FwdBytes, "end": r.End, "skipped": r.Skipped}
+	ps.Lines = append(ps.Lines, M{"ev": "pkt", "p": lp, "o": lo})
+	return r, nil
+}
+
+// Finish checks that nothing happened on the tunnel's loop after it ended and closes the client side.
+func (ps *ProtoSession) Finish() {
+	i, t := ps.I, ps.T
+	if t == nil {
+		return
+	}
+	defer t.Close()
 	if extra := t.AfterEnd(); len(extra) > 0 {
 		resps, dials, nf := 0, []interface{}{}, 0
 		for _, e := range extra {
@@ -364,9 +389,26 @@ func (i *Inst) RunProto(s Script, tw *TraceWriter, rng *rand.Rand) error {
 		for k := 0; k < resps; k++ {
 			rs = append(rs, M{"pt": 0, "status": []int{-1, -1}, "wf": false, "hdrlen": 0, "wirelen": 0, "fields": -1, "caps": -1, "major": -1, "minor": -1, "redir": []int{-1, -1}, "idle": []int{-1, -1}})
 		}
-		tw.Line(M{"ev": "pkt", "p": M{"k": "other", "cls": "valid", "afterend": true},
+		ps.Lines = append(ps.Lines, M{"ev": "pkt", "p": M{"k": "other", "cls": "valid", "afterend": true},
 			"o": M{"resps": rs, "dials": dials, "conn": false, "nfwd": nf, "fwdbytes": 0, "end": true, "skipped": false}})
 	}
-	// cross-check: the backends saw exactly the connections the hooks reported
-	return nil
+}
+
+// RunProto executes single-tunnel protocol scripts against inst and appends
+// their traces.
+func (i *Inst) RunProto(s Script, tw *TraceWriter, rng *rand.Rand) error {
+	ps := i.NewSession(s, rng)
+	err := ps.Open()
+	if err == nil {
+		for k := range s.Steps {
+			if _, err = ps.Step(k); err != nil {
+				break
+			}
+		}
+	}
+	ps.Finish()
+	for _, l := range ps.Lines {
+		tw.Line(l)
+	}
+	return err
 }
